@@ -5,6 +5,7 @@ cd "$(dirname "$0")"
 export CARGO_NET_OFFLINE=true CARGO_TARGET_DIR="$PWD/build/cargo"
 mkdir -p build evidence replays
 python3 tools/extract.py
+python3 tools/bodyx.py
 (cd lean && lake build GA driver)
 (cd harness && cargo build --offline --bins)
 echo "setup done"
